@@ -516,11 +516,15 @@ package redis
 //@   prop C11 C19 C02
 //@   consumes req if result == "Stop"
 //@   requires f != nil && req != nil && req.body != nil
+//@   requires @counter-object-invariant f.counter != nil ==> counterok(f.counter) && countsbelowmax(f.counter)
+//@   ensures @counter-object-invariant f.counter != nil ==> counterok(f.counter)
+//@   ensures @the-request-key-is-counted old(f.counter != nil && len(req.body.Array) > 1 && len(req.body.Array[1].Text) > 0) && cmd != "eval" && cmd != "cluster" && cmd != "auth" && cmd != "scan" ==> has(f.counter.items, old(str(req.body.Array[1].Text)))
 
 //@ func (*hotKeyFilter).extractKey
 //@   prop C11 C19
 //@   requires f != nil && v != nil
 //@   modifies nothing
+//@   ensures @the-first-argument-unless-excluded result == ite(len(v.Array) <= 1 || cmd == "eval" || cmd == "cluster" || cmd == "auth" || cmd == "scan", "", str(v.Array[1].Text))
 
 //@ func (*compressFilter).Do
 //@   prop C11 C13 C02
@@ -737,3 +741,15 @@ package redis
 //@ func (*encoder).Flush
 //@   prop C10 C01 C02
 //@   modifies e.err
+
+// ---- C19: the proxy sizes its hot key collector with a positive capacity ------------------------------
+
+//@ func newUpstream
+//@   prop C19
+//@   callpre NewCollector @hot-key-capacity-at-least-one arg0 >= 1
+
+//@ func (*upstream).HotKeys
+//@   prop C19
+//@   requires u != nil
+//@   modifies nothing
+//@   ensures @the-collectors-report sameslice(result, u.hkc.keys)
